@@ -1,3 +1,5 @@
+import re
+
 from common import Rng
 
 CONFIG = dict(
@@ -23,7 +25,13 @@ CONFIG = dict(
                "TCP connection on generated histories, for one or two observing neighbours on the same fan-out, decoding the "
                "real bytes with an independent UPDATE reader into a mirror, establishing a brand-new session for the fresh "
                "dump at every quiet flush and at the end, and diffing every flush against the model, with the reference "
-               "checker as oracle on the real observations.",
+               "checker as oracle on the real observations.  Neighbours that negotiated RTC (RFC 4684) next to VPNv4 and "
+               "IPv4 are part of the executable model and of the exercised path - the AwaitingEor / Active gate of "
+               "handle_prefix_update, on_established skipping the suspended VPN family, do_route_refresh under the "
+               "route-target filter built from the neighbour's real RTC routes, the RTC End-of-RIB through "
+               "trigger_rtc_export and the RouteRefreshFamilies arm of run_select - with changes delivered before and after "
+               "the End-of-RIB; for these sessions there are no theorems (okRun requires a session without RTC): model = "
+               "implementation on every flush, and the oracle compares with a brand-new session brought to the same RTC phase.",
     level_note="Trusted: Lean kernel; axioms propext/Quot.sound; the hand-written model (checked only by the correspondence "
                "stream); harness glue (every ToPeerEvent is taken from the channel register_peer created and re-sent, in the "
                "order and number the case dictates, on a channel the session polls - the arm of run_select that handles it and "
@@ -47,7 +55,11 @@ CONFIG = dict(
                "hides such paths from the change).  NOT covered by theorems, only by the correspondence stream and the oracle: "
                "histories in which a soft reset overtakes queued changes (open finding S36) and LLGR stale periods (S16, "
                "repaired: with 2+ paths of the stale peer on a prefix the re-advertisement takes several changes, in between "
-               "the admissibility notion of the add-path theorems does not hold).",
+               "the admissibility notion of the add-path theorems does not hold); sessions with RTC negotiated (VPNv4 family, "
+               "route-target filter, suspension until the RTC End-of-RIB: executable model without theorems; the fresh-dump "
+               "session is put into the observer's RTC phase by the same transcribed glue as the observer: "
+               "rtc_state.process(SessionEstablished) at establishment, process(EorReceived) + trigger_rtc_export at the "
+               "End-of-RIB, which is what the UPDATE receive path does on an RTC End-of-RIB).",
     lean_modules=["Rbgp.Export.Props01"],
     theorems=[
         "Rbgp.Export.Props01.check_run_ok",
@@ -98,10 +110,15 @@ CONFIG = dict(
          "either, each followed by its soft reset OUT; one case in three (suitable receivers) 1-3 IPv6 prefixes next to "
          "the IPv4 ones; one case in three a second observing neighbour with another role, send-max and own policy on the "
          "same fan-out; one single-shard case in thirty 66-73 extra prefixes announced before establishment (destination "
-         "ids beyond 64); 1.7 % syntactically damaged cases.  A brand-new session is established on the same RIB at every "
+         "ids beyond 64); one case in seven (single shard, iBGP / RR-client / RS-client receiver, one observer) the neighbour "
+         "negotiated RTC + VPNv4 + IPv4: 1-3 VPNv4 prefixes (RD 65000:n, label 16) next to the IPv4 ones, route targets "
+         "65001:100 / 65001:101 on the attribute sets, RTC interest of the neighbour = everything (default route target) / "
+         ":100 / :100 and :101 / nothing, the RTC End-of-RIB (`rtceor`) placed anywhere in the history (one chance in "
+         "twelve per operation, at most once), so IPv4 and VPNv4 changes, soft resets and flushes fall before and after it; "
+         "1.7 % syntactically damaged cases.  A brand-new session is established on the same RIB at every "
          "flush that leaves the channel empty and at the end (everything delivered and flushed).  Non-trivial = the final view is not empty; distinct = distinct case line",
     expect_tokens=["(reuse 1)", "(reuse 2)", "(overtaken 0)", "(overtaken 1)", "(final)", "(final (", "(dump (", "(flushes (m (",
-                   "(pair (obs", "(quiet (q ", "(v6 ", "167985152 24",
+                   "(pair (obs", "(quiet (q ", "(v6 ", "167985152 24", "(170141183460470430770052094", "(bin 16 x0002fde900000064",
                    "(bad-case)", "(words 8 77)", "(val 4 7)", "(v4 3232235999)", "(val 9 ", "(aspath (3 65001)", " 24 2 (", " 24 3 ("],
     trusted_base=["model lean/Rbgp/Export/Pipeline.lean (+ Model.lean) of table/src/lib.rs (IdAllocator, Destination, Table::insert / "
                   "remove / drop, collect_loc_rib_paths_limited, impl Ord for RibEntry on the attribute families used), "
@@ -110,7 +127,7 @@ CONFIG = dict(
                   "harness/daemon/c01.rs: the channel register_peer created is drained into a FIFO after every RIB operation "
                   "(changes of one bulk operation put in prefix order) and re-sent event by event on the channel the session "
                   "polls; run_select (its peer-event arms and, through the socket arm, flush_tx) is the real one; the "
-                  "independent UPDATE reader (RFC 4271/4760/7911: IPv4 + IPv6 unicast, "
+                  "independent UPDATE reader (RFC 4271/4760/7911/4364: IPv4 + IPv6 unicast, VPNv4 with one label, "
                   "add-path) and its canonical attribute printing; a key announced twice with different contents in one flush "
                   "is reported as `amb` on both sides (the survivor depends on hash-map iteration order)",
                   "the prefix -> shard table of checks/c01.py (FNV hash of the derived Hash of Nlri), re-checked by the "
@@ -120,7 +137,10 @@ CONFIG = dict(
                            "withdraw / reach parts) - the mirror is order-independent except for `amb` keys",
                            "PeerCodec::encode_to framing and splitting (C04); only the decoded effect is compared",
                            "the decision order impl Ord for RibEntry (C02), modelled as a lexicographic key",
-                           "RTC filter, BMP, kernel FIB, prefix limits: held constant; the import policy is one reject-ORIGIN statement "
+                           "RTC: the RtcState machine itself (timers, GR reconnect with stale RTC routes, the UPDATE receive path that "
+                           "recognises the RTC End-of-RIB) is driven through its process() calls, not through received messages; "
+                           "VPNv6 / EVPN / MUP families and on_established of an already Active session (GR reconnect) are not exercised",
+                           "BMP, kernel FIB, prefix limits: held constant; the import policy is one reject-ORIGIN statement "
                            "(FLAG_FILTERED), next-hop tracking is driven through update_nexthop_validity directly"],
     assumptions=["policy changes take effect in the session at once and their soft reset is queued, as in the daemon",
                  "one serialisation of RIB operations, deliveries and flushes per case: no change is produced while a delivery "
@@ -128,6 +148,8 @@ CONFIG = dict(
                  "event channel under that shard's lock) is not exercised",
                  "IPv6 prefixes only towards receivers whose next hop is left alone (iBGP, RR client, RS client) and with "
                  "policies without a next-hop action (the session has one local address)",
+                 "RTC sessions: single shard, one observing neighbour, receivers whose next hop is left alone; the neighbour's RTC "
+                 "routes are in the RIB before establishment and do not change afterwards",
                  "fewer than 2^24 destinations per shard (the IdAllocator's own debug assertion)"],
 )
 
@@ -224,9 +246,19 @@ def policy(r):
     return "(pol any none none (comm) reject accept)"
 
 
+RT_A = "0002fde900000064"       # route target 65001:100
+RT_B = "0002fde900000065"       # route target 65001:101
+
+
 def gen_case(r):
     k = r.pick([1, 1, 2, 3])
     role = r.pick(["ebgp", "ebgp", "ibgp", "rrc", "rsc", "confed"])
+    # one case in seven: the neighbour negotiated RTC (RFC 4684) and VPNv4 next to its other families;
+    # until its RTC End-of-RIB (`rtceor`) the VPN family is suspended, the others are not
+    rtc_on = r.chance(1, 7)
+    if rtc_on:
+        k = 1
+        role = r.pick(["ibgp", "rrc", "rsc"])
     mx = r.pick([1, 1, 1, 2, 2, 3])
     confed = r.pick([0, 0, 65100])
     if role in ("ibgp", "rrc"):
@@ -252,13 +284,19 @@ def gen_case(r):
     pfxs = ["(%d %d %d)" % (PFX[i][0], PFX[i][1], SHARD[k][i]) for i in idxs]
     # a second family now and then (receivers that leave the next hop alone, policies that set none):
     # IPv6 prefixes have their own RIB and id allocator per shard, their own ExportMap / PendingTx
-    dual = role in ("ibgp", "rrc", "rsc") and r.chance(1, 3)
+    dual = rtc_on or (role in ("ibgp", "rrc", "rsc") and r.chance(1, 3))
     six = set()
-    if dual:
+    if dual and not (rtc_on and r.chance(1, 2)):
         for j in range(1 + r.below(3)):
             six.add(len(pfxs))
             pfxs.append("(6 %d %d %d)" % (PFX6[j][0], PFX6[j][1], SHARD6[k][j]))
             idxs.append(None)
+    rtc = "off"
+    if rtc_on:
+        for j in range(1 + r.below(3)):
+            pfxs.append("(v %d %d 24 0)" % (r.pick([1, 2]), PFX[j][0]))
+            idxs.append(None)
+        rtc = r.weighted([("all", 5), ("(rts x%s)" % RT_A, 4), ("(rts x%s x%s)" % (RT_A, RT_B), 1), ("(rts)", 2)])
     # once in a while more than 64 destinations in one shard (second word of the id allocator)
     big = k == 1 and r.chance(1, 30)
     nbig = 0
@@ -268,6 +306,16 @@ def gen_case(r):
             pfxs.append("(%d 24 0)" % (PFX_BIG + 256 * j))
             idxs.append(None)
     ats = asets(r)
+    if rtc_on:
+        # route targets on the attribute sets: A, B, both or none
+        ats2 = []
+        for a in ats:
+            a = re.sub(r" \(bin 16 x[0-9a-f]*\)", "", a)
+            rt = r.pick(["x" + RT_A, "x" + RT_A, "x" + RT_B, "x" + RT_A + RT_B, None])
+            if rt:
+                a = a[:-1] + " (bin 16 %s))" % rt
+            ats2.append(a)
+        ats = ats2
     pol = (lambda rr: policy_nonh(rr)) if dual else policy
     pols = [pol(r) for _ in range(1 + r.below(3))]
     pol0 = pol(r) if r.chance(1, 3) else "none"
@@ -278,7 +326,7 @@ def gen_case(r):
     imp = "(origin %d)" % r.pick([0, 1, 2]) if r.chance(2, 5) else "none"
     # a second observing neighbour on the same fan-out, with another role / send-max / own policy
     nbr2 = "none"
-    if r.chance(1, 3):
+    if not rtc_on and r.chance(1, 3):
         roles2 = ["ibgp", "rrc", "rsc"] if dual else ["ebgp", "ibgp", "rrc", "rsc", "confed"]
         role2 = r.pick([x for x in roles2 if x != role] or roles2)
         if role2 in ("ibgp", "rrc"):
@@ -319,8 +367,13 @@ def gen_case(r):
         first = len(idxs) - nbig
         pre += [ann(0, first + j) for j in range(nbig)]
     ops = []
+    eor_done = False
     n = r.pick([5, 10, 20, 40, 60])
     while len(ops) < n:
+        if rtc_on and not eor_done and r.chance(1, 12):
+            ops.append("rtceor")
+            eor_done = True
+            continue
         kind = r.weighted([("ann", 30), ("wd", 14), ("deliver", 20), ("flush", 12), ("down", 4), ("reset", 6),
                            ("reuse", 10), ("window", 6), ("llgr", 3 if llgr_ok else 0),
                            ("toggle", 10 if imp != "none" else 3), ("nhflap", 4)])
@@ -375,8 +428,8 @@ def gen_case(r):
             p = r.below(len(idxs))
             for _ in range(2 + r.below(2)):
                 ops.append(ann(None, p))
-    return "(c01 (shards %d) %s %s (pol0 %s) (gpol0 %s) (imp %s) (nbr2 %s) (srcs %s) (pfxs %s) (asets %s) (pols %s) (pre%s) (ops%s))" % (
-        k, ctx, sess, pol0, gpol0, imp, nbr2, " ".join(srcs), " ".join(pfxs), " ".join(ats), " ".join(pols),
+    return "(c01 (shards %d) %s %s (pol0 %s) (gpol0 %s) (imp %s) (nbr2 %s) (rtc %s) (srcs %s) (pfxs %s) (asets %s) (pols %s) (pre%s) (ops%s))" % (
+        k, ctx, sess, pol0, gpol0, imp, nbr2, rtc, " ".join(srcs), " ".join(pfxs), " ".join(ats), " ".join(pols),
         "".join(" " + o for o in pre), "".join(" " + o for o in ops))
 
 
